@@ -44,7 +44,7 @@ C = dict(
 def run(tier, replay=None):
     if not replay:
         # the as-built configuration must exhibit the modelled deviations (sanity of the deviation switches)
-        r = vlib.run_tlc("TaskBook", "TaskBook_AsBuilt.cfg", workers=4, timeout=300, continue_=True)
+        r = vlib.run_tlc("TaskBook", "TaskBook_AsBuilt.cfg", workers=4, timeout=300)
         if not r.violated:
             raise vlib.Inconclusive("TaskBook_AsBuilt.cfg no longer violates the contract: the deviation switches are vacuous")
         vlib.log("[tlc] TaskBook/TaskBook_AsBuilt.cfg: violates %s as expected (models the code as built)" % sorted(set(r.violated)))
